@@ -33,6 +33,7 @@ func registerGhosts(v *Verifier) {
 	v.ghostFuns["decquo"] = ghostSig{[]string{"Int", "Int"}, "Int"}
 	v.ghostFuns["be64dec"] = ghostSig{[]string{"Slice_Int"}, "Int"}
 	v.ghostFuns["be64enc"] = ghostSig{[]string{"Int"}, "Slice_Int"}
+	v.ghostFuns["validDenom"] = ghostSig{[]string{sortStr}, "Bool"}
 	v.ghostFuns["decmul"] = ghostSig{[]string{"Int", "Int"}, "Int"}
 	v.ghostFuns["pow2"] = ghostSig{[]string{"Int"}, "Int"}
 	v.ghostFuns["hasDelegation"] = ghostSig{[]string{sortAddr, sortAddr}, "Bool"}
